@@ -137,6 +137,41 @@ def check_one(acc: Acc, fam, tname, index, sensor, own: bytes, first_delta=0, sa
     return False
 
 
+def check_beyond(acc: Acc, fam, tname, index, sensor, gap, salt, tcp):
+    """The block that was read ENDS before the sensor's own registers (gap registers earlier): whatever the library reports then,
+    it cannot depend on the registers that WERE read - they are all 'other registers of the response'."""
+    from goodwe.protocol import ModbusRtuReadCommand, ModbusTcpReadCommand, ProtocolResponse
+    if fam == "ES" and sensor.offset <= 255:
+        return False
+    acc.case()
+    acc.nontrivial("beyond", fam, tname, index, gap, salt, tcp)
+    before = 3 + salt % 5
+    first = max(0, sensor.offset - gap - before)
+    count = sensor.offset - gap - first
+    if count < 1:
+        return False
+    outcomes = []
+    for style, s2 in ((1, 0), (2, salt), (2, salt + 0x7777), (0, 0)):
+        payload = bytes(surround(2 * count, s2, style))
+        if tcp:
+            cmd = ModbusTcpReadCommand(0xF7, first, count)
+            frame = rw.tcp_read_response(1, 0xF7, payload)
+        else:
+            cmd = ModbusRtuReadCommand(0xF7, first, count)
+            frame = rw.rtu_read_response_unsealed(0xF7, payload)
+        try:
+            outcomes.append(("value", repr(sensor.read(ProtocolResponse(frame, cmd)))))
+        except Exception as ex:
+            outcomes.append(("raised", type(ex).__name__))
+    if len(set(outcomes)) > 1:
+        tn = rs.type_name(sensor)
+        return acc.fail("C12|%s|interference|beyond-block-end" % tn,
+                        "%s.%s (@%d) read from a block %d+%d that ends %d register(s) before it gives %s depending on the block's content" % (
+                            fam, sensor.id_, sensor.offset, first, count, gap, sorted(set(outcomes))[:3]),
+                        {"beyond": True, "family": fam, "table": tname, "index": index, "gap": gap, "salt": salt, "tcp": tcp})
+    return False
+
+
 def typed_sensors():
     return [(f, t, i, s) for (f, t, i, s) in tables.all_sensors() if rs.type_name(s) in rs.TYPES]
 
@@ -177,6 +212,8 @@ def instance_job(job):
                 if fam == "ES" and s.offset <= 255 and j:
                     fd, tcp = 0, False
                 check_one(acc, fam, tname, i, s, own, fd, seed + idx, style, tcp)
+        for gap in (0, 1, 2):
+            check_beyond(acc, fam, tname, i, s, gap, seed + idx, bool(gap & 1))
         if len(acc.samples) < 2:
             acc.sample({"sensor": "%s.%s" % (fam, s.id_), "type": rs.type_name(s), "offset": s.offset,
                         "own_values": len(own_values(s, n_extra, seed * 7919 + idx)), "windows": 3})
@@ -444,6 +481,10 @@ def run(ctx):
 
 
 def replay(ctx, case):
+    if case.get("beyond"):
+        sb = tables.find(case["family"], case["table"], case["index"])
+        check_beyond(ctx.acc, case["family"], case["table"], case["index"], sb, case["gap"], case["salt"], case["tcp"])
+        return
     if case.get("history"):
         ctx.acc.merge(history_job((0, 1)))
         return
